@@ -149,7 +149,7 @@ func biasDriver(prop, focus string, nb func(c *caseCtx) int, tweak func(c *caseC
 		is := checkTrace(g.method, d.Trace, st)
 		if msg := checkReceived(d); msg != "" {
 			is = append(is, issue{prop, "request-not-as-sent", "the bias works on other data than the request carries: " + msg})
-		} else if viaService {
+		} else {
 			st.add("request_received_as_sent", 1)
 		}
 		// the criteria the request declares reach the bias under test as declared (type, declared range): no earlier
